@@ -2657,9 +2657,9 @@ static PyObject* gemm(PyObject *self, PyObject *args, PyObject *kwrds)
     if (m == 0 || n == 0) return Py_BuildValue("");
 
     if (ldA == 0) ldA = MAX(1,A->nrows);
-    if (k > 0 && ldA < MAX(1, (transA == 'N') ? m : k)) err_ld("ldA");
+    if (ldA < MAX(1, (transA == 'N') ? m : k)) err_ld("ldA");
     if (ldB == 0) ldB = MAX(1,B->nrows);
-    if (k > 0 && ldB < MAX(1, (transB == 'N') ? k : n)) err_ld("ldB");
+    if (ldB < MAX(1, (transB == 'N') ? k : n)) err_ld("ldB");
     if (ldC == 0) ldC = MAX(1,C->nrows);
     if (ldC < MAX(1,m)) err_ld("ldB");
 
@@ -3084,7 +3084,7 @@ static PyObject* syrk(PyObject *self, PyObject *args, PyObject *kwrds)
     if (n == 0) return Py_BuildValue("");
 
     if (ldA == 0) ldA = MAX(1,A->nrows);
-    if (k > 0 && ldA < MAX(1, (trans == 'N') ? n : k)) err_ld("ldA");
+    if (ldA < MAX(1, (trans == 'N') ? n : k)) err_ld("ldA");
     if (ldC == 0) ldC = MAX(1,C->nrows);
     if (ldC < MAX(1,n)) err_ld("ldC");
     if (oA < 0) err_nn_int("offsetA");
@@ -3206,7 +3206,7 @@ static PyObject* herk(PyObject *self, PyObject *args, PyObject *kwrds)
     if (n == 0) return Py_BuildValue("");
 
     if (ldA == 0) ldA = MAX(1,A->nrows);
-    if (k > 0 && ldA < MAX(1, (trans == 'N') ? n : k)) err_ld("ldA");
+    if (ldA < MAX(1, (trans == 'N') ? n : k)) err_ld("ldA");
     if (ldC == 0) ldC = MAX(1,C->nrows);
     if (ldC < MAX(1,n)) err_ld("ldC");
     if (oA < 0) err_nn_int("offsetA");
@@ -3348,9 +3348,9 @@ static PyObject* syr2k(PyObject *self, PyObject *args, PyObject *kwrds)
     }
 
     if (ldA == 0) ldA = MAX(1,A->nrows);
-    if (k > 0 && ldA < MAX(1, (trans == 'N') ? n : k)) err_ld("ldA");
+    if (ldA < MAX(1, (trans == 'N') ? n : k)) err_ld("ldA");
     if (ldB == 0) ldB = MAX(1,B->nrows);
-    if (k > 0 && ldB < MAX(1, (trans == 'N') ? n : k)) err_ld("ldB");
+    if (ldB < MAX(1, (trans == 'N') ? n : k)) err_ld("ldB");
     if (ldC == 0) ldC = MAX(1,C->nrows);
     if (ldC < MAX(1,n)) err_ld("ldC");
 
@@ -3508,9 +3508,9 @@ static PyObject* her2k(PyObject *self, PyObject *args, PyObject *kwrds)
     }
 
     if (ldA == 0) ldA = MAX(1,A->nrows);
-    if (k > 0 && ldA < MAX(1, (trans == 'N') ? n : k)) err_ld("ldA");
+    if (ldA < MAX(1, (trans == 'N') ? n : k)) err_ld("ldA");
     if (ldB == 0) ldB = MAX(1,B->nrows);
-    if (k > 0 && ldB < MAX(1, (trans == 'N') ? n : k)) err_ld("ldB");
+    if (ldB < MAX(1, (trans == 'N') ? n : k)) err_ld("ldB");
     if (ldC == 0) ldC = MAX(1,C->nrows);
     if (ldC < MAX(1,n)) err_ld("ldC");
 
